@@ -470,7 +470,11 @@ func parsePossibilityStage(input *input, stageSet *StageSet) error {
 			if stage.Not {
 				return errors.New("Double-negation (!!) of a single Stage is not permitted :(")
 			}
+			if stage.Name != "" {
+				return errors.New("A Stage can only be negated in front of its name")
+			}
 			stage.Not = !stage.Not
+			continue
 		case '>', ' ', '\t', '\n', '\r': /* Let our parent deal with these */
 			stageSet.Stages = append(stageSet.Stages, stage)
 			return nil
